@@ -355,6 +355,35 @@ fn explain(received: &[u8], reference: &[u8], complete: bool) -> Result<(), Stri
     Ok(())
 }
 
+/// How the formatter of a records scenario is connected to the writer: called directly, behind `output_to` (one
+/// long-lived stream whose writer is swapped per entry), or behind `output_to_makewriter` (a fresh writer handle per
+/// entry). The fault behaviour - what the writer receives, what the caller is told - must be the same on all three
+/// (C16-m7: a buffering layer on the make-writer route whose drop swallows the error).
+#[derive(Clone)]
+struct SwapW(Rc<RefCell<Option<ScriptedW>>>);
+impl io::Write for SwapW {
+    fn write(&mut self, b: &[u8]) -> io::Result<usize> {
+        self.0.borrow().clone().unwrap().write(b)
+    }
+    fn write_vectored(&mut self, bufs: &[io::IoSlice<'_>]) -> io::Result<usize> {
+        self.0.borrow().clone().unwrap().write_vectored(bufs)
+    }
+    fn flush(&mut self) -> io::Result<()> {
+        self.0.borrow().clone().unwrap().flush()
+    }
+}
+impl<'a> tracing_subscriber::fmt::MakeWriter<'a> for SwapW {
+    type Writer = ScriptedW;
+    fn make_writer(&'a self) -> ScriptedW {
+        self.0.borrow().clone().unwrap()
+    }
+}
+enum Route {
+    Direct(metrique_writer_format_emf::Emf),
+    Stream(metrique_writer::format::FormattedEntryIoStream<metrique_writer_format_emf::Emf, SwapW>),
+    Make(metrique_writer::format::FormattedMakeWriterEntryIoStream<metrique_writer_format_emf::Emf, SwapW>),
+}
+
 fn cmd_records(a: &HashMap<String, String>) {
     let scen = util::read_ndjson(util::arg_str(a, "scenarios", ""));
     let mut sink = Sink::new(a);
@@ -366,9 +395,19 @@ fn cmd_records(a: &HashMap<String, String>) {
         let (pi, pz, ph) = (sc["intr"].as_u64().unwrap_or(100) as u32, sc["zero"].as_u64().unwrap_or(20) as u32, sc["hard"].as_u64().unwrap_or(20) as u32);
         let small = sc["small"].as_bool().unwrap_or(false);
         // ONE formatter for the whole scenario: an entry after a failed one must format normally
-        let mut f = match cfg {
+        let f = match cfg {
             "s2d" | "sn1" | "wf" | "ws" | "wg" => panic!("records mode uses plain configurations"),
             _ => vharness::emfkinds::build_emf(cfg),
+        };
+        let swap = SwapW(Rc::new(RefCell::new(None)));
+        let route = seed % 3;
+        let mut f = {
+            use metrique_writer::format::FormatExt;
+            match route {
+                0 => Route::Direct(f),
+                1 => Route::Stream(f.output_to(swap.clone())),
+                _ => Route::Make(f.output_to_makewriter(swap.clone())),
+            }
         };
         let mut evs: Vec<Value> = Vec::new();
         let mut bad: Vec<String> = Vec::new();
@@ -382,9 +421,15 @@ fn cmd_records(a: &HashMap<String, String>) {
             );
             evs.push(json!({"ev":"Entry","id":i,"kind":kind}));
             let mut out = w.clone();
+            *swap.0.borrow_mut() = Some(w.clone());
             let r = util::catch(|| {
                 use metrique_writer_core::format::Format;
-                f.format(&e, &mut out)
+                use metrique_writer_core::stream::EntryIoStream;
+                match &mut f {
+                    Route::Direct(f) => f.format(&e, &mut out),
+                    Route::Stream(s) => s.next(&e),
+                    Route::Make(s) => s.next(&e),
+                }
             });
             let st = w.0.borrow();
             evs.extend(st.events.iter().cloned());
@@ -395,7 +440,7 @@ fn cmd_records(a: &HashMap<String, String>) {
                 Err(p) => ("panic", p.clone()),
             };
             evs.push(json!({"ev":"Ret","res":res}));
-            let at = format!("entry #{i} ({kind})");
+            let at = format!("entry #{i} ({kind}, route {})", ["direct", "output_to", "output_to_makewriter"][route as usize]);
             match reference.class {
                 "ok" => {
                     if let Err(why) = explain(&st.received, &reference.bytes, res == "ok") {
